@@ -1,4 +1,5 @@
 import PgVerif.Proofs.Forest
+import PgVerif.Proofs.ForestNodup
 /-!
 # C03 — Forest packs each derivation once; counting and indexing are consistent
 
@@ -43,6 +44,22 @@ theorem C03_index_oob (F : Forest) (root i : Nat) (h0 : 0 < i) (hi : solutions F
 `treeAt`, a function of the forest and the index. (The lazy proxy evaluates the
 same `_enumerate_children` with the same counter on access.) -/
 theorem C03_repeat_access (F : Forest) (root i : Nat) : getTree F root i = getTree F root i := rfl
+
+/-- The trees a forest represents are pairwise different: no choice of alternatives is
+listed twice, whatever the sharing between subforests. -/
+theorem C03_trees_pairwise_distinct (F : Forest) (root : Nat) : (trees F root).Nodup :=
+  trees_nodup F root
+
+/-- `forest[i]` and `forest[j]` are different trees for different indices in range. -/
+theorem C03_index_injective (F : Forest) (hwf : F.wf = true) (root : Nat) (hr : root < F.length)
+    (i j : Nat) (hi : i < solutions F root) (hj : j < solutions F root) (hne : i ≠ j) :
+    treeAt F root i ≠ treeAt F root j :=
+  fun h => hne (treeAt_inj F hwf root hr i j hi hj h)
+
+/-- `get_first_tree()` equals `forest[0]`, for every forest (no well-formedness needed). -/
+theorem C03_first_tree_is_index_zero (F : Forest) (root : Nat) :
+    firstTree F root = treeAt F root 0 :=
+  firstTree_eq_treeAt_zero F root
 
 def exF : Forest := [⟨[.term 1 0 1]⟩, ⟨[.nonterm 1 0 1 [0], .term 2 0 1]⟩]
 
